@@ -12,9 +12,17 @@ import gen
 
 RULE = ("definitions with 0-3 controls (all occurring in some update, pairwise distinct noises), with/without calibration, SPD dyadic "
         "covariances; each (dt, x, P, u) is run through process_model twice with input snapshots; distinct by (definition, noise, input); "
-        "non-trivial = at least one control (V M Vᵀ term present) or non-symmetric process Jacobian")
+        "non-trivial = at least one control (V M Vᵀ term present) or non-symmetric process Jacobian; "
+        "fixed (seed-independent) streams: fast-clock models (rates 2^20..2^30) stepped by dt between 2^-36 and 2^-18 that are not a whole "
+        "number of nanoseconds / carry a residue below 1 ns, every dt-dependent term of order 1; "
+        "roots of even powers (t*sqrt(t^2), (t^2)^(3/2), sqrt(a^2*b^2), of states and of controls) at every sign combination of the "
+        "symbols involved, with and without CSE")
 NOTE = ["oracle: numpy-free exact recomputation G P Gᵀ + V M Vᵀ from sympy derivatives by name and the noise supplied by name",
-        "purity is checked by bitwise comparison of the inputs' arrays before/after and of two consecutive calls"]
+        "purity is checked by bitwise comparison of the inputs' arrays before/after and of two consecutive calls",
+        "stream=fast-clock-dt: the prediction is taken at the dt the caller passed, whatever its magnitude (exact oracle at the binary64 dt itself)",
+        "stream=even-power-roots: sqrt(t^2) is |t|, not t - exact oracle at points where the radicand's base is negative (the points with a "
+        "zero base, where the derivative does not exist, are not generated)",
+        "random points at which the exact derivative is 0/0 (acos(cos(dt*s)) at dt = 0) are skipped and counted (oracle_undefined_point)"]
 PARTIAL = ["binary64 rounding (1e-9 relative tolerance)"]
 
 
@@ -198,6 +206,118 @@ def role_swapped_twins(ctx):
             predict_against_oracle(ctx, dd, ekf, process, pt, "role-swapped-twin")
 
 
+def _fixed_prediction(ctx, d, ekf, process, pt, P, tag, extra):
+    """one prediction at fixed inputs against the exact x' = f(x,u) and G P G^T + V M V^T (by name), twice, inputs compared bitwise"""
+    Ls, Lc, Lk = eh.names_of(d)
+    um = {s.name: e for s, e in d.state_model.items()}
+    sub = eh.subs_map(d, pt)
+    case = dict({"def": d.describe(), "noise": {k: str(v) for k, v in process.items()}, "point": eh.point_json(pt), "P": eh.mat_json(P),
+                 "stream": tag}, **extra)
+    try:
+        G = eh.oracle_jac(um, Ls, Ls, sub)
+        V = eh.oracle_jac(um, Ls, Lc, sub)
+        want_x = eh.oracle_vals(um, Ls, sub)
+    except Exception:
+        ctx.count(f"stream={tag}:oracle-undefined"); return
+    M = [[process[a] if a == b else 0 for b in Lc] for a in Lc]
+    want_P = eh.mmul(eh.mmul(G, P), eh.mT(G))
+    if Lc:
+        want_P = eh.madd(want_P, eh.mmul(eh.mmul(V, M), eh.mT(V)))
+    ctx.case(case, True); ctx.count(f"stream={tag}")
+    st, ct, cv = eh.state_obj(ekf, pt), eh.control_obj(ekf, pt), eh.cov_obj(ekf, P)
+    snap = (st.data.copy(), ct.data.copy(), cv.data.copy())
+    try:
+        with fk.quiet():
+            r1 = ekf.process_model(float(pt["dt"]), st, cv, ct)
+            r2 = ekf.process_model(float(pt["dt"]), st, cv, ct)
+    except Exception as e:
+        ctx.fail(f"process-model-raises:{fk.exc_kind(e)}", f"process_model raises {e!r}"[:300], case); return
+    if not (np.array_equal(snap[0], st.data) and np.array_equal(snap[1], ct.data) and np.array_equal(snap[2], cv.data)):
+        ctx.fail("process-model-mutates-input", "process_model modified one of its inputs", case)
+    if not (np.array_equal(r1.state.data, r2.state.data) and np.array_equal(r1.covariance.data, r2.covariance.data)):
+        ctx.fail("process-model-not-repeatable", "repeating process_model gives a different result", case)
+    gx = fk.by_name(r1.state)
+    if not all(core.close(gx[n], w, scale=max(map(abs, want_x))) for n, w in zip(Ls, want_x)):
+        ctx.fail(f"predict-state:{tag}", f"predicted state {gx} differs from the model-propagated state {dict(zip(Ls, map(float, want_x)))}", case)
+    if not eh.mat_close(r1.covariance.data, want_P):
+        ctx.fail(f"predict-cov:{tag}", f"predicted covariance {r1.covariance.data.tolist()} differs from G P G^T + V M V^T = "
+                 f"{[[float(x) for x in row] for row in want_P]}", case)
+
+
+def fast_clock_time_steps(ctx):
+    """'for all dt' includes the steps of a fast clock: models whose rates are 2^20 .. 2^30 per second, stepped by dt between 2^-36
+    and 2^-18 s (below / around a nanosecond, or a microsecond plus a sub-nanosecond residue), so that every dt-dependent term of the
+    state and of both Jacobians is of order 1. The prediction is the model at THE dt that was passed. Fixed inputs, private generator."""
+    import random
+    from fractions import Fraction as Fr
+    rng = random.Random(40417)
+    p, v, a, c = (sympy.Symbol(n) for n in ("pos_f", "vel_f", "acc_f", "rate_f"))
+    dt = sympy.Symbol("dt")
+    models = [
+        # first-order lag with rate c/4, driven by a; position integrates c*v
+        {p: p + c * v * dt + a * (c * dt) ** 2 / 2, v: v - c * v * dt / 4 + c * a * dt},
+        # state-dependent Jacobian entries that carry dt
+        {p: p + c * dt * v * v / 2 - c * dt * p * a, v: v + c * dt * (a - v * p)},
+    ]
+    # (rate, dt): c*dt is 1/2 .. 3 in every row; none of the dt is a whole number of nanoseconds
+    steps = [(Fr(2) ** 30, Fr(1, 2 ** 31)), (Fr(2) ** 30, Fr(3, 2 ** 31)), (Fr(2) ** 30, Fr(5, 2 ** 32)), (Fr(2) ** 34, Fr(3, 2 ** 36)),
+             (Fr(2) ** 20, Fr(1, 2 ** 20) + Fr(1, 2 ** 31)), (Fr(2) ** 20, Fr(3, 2 ** 20) + Fr(3, 2 ** 33)),
+             (Fr(2) ** 24, Fr(1, 2 ** 25) + Fr(1, 2 ** 34)), (Fr(2) ** 18, Fr(1, 2 ** 18) + Fr(5, 2 ** 32))]
+    for mi, sm in enumerate(models):
+        d = gen.Definition(dt, [p, v], [a], [c], dict(sm), {})
+        process = {"acc_f": Fr(3, 4)}
+        for cse in (True, False):
+            by_rate = {}
+            for rate, step in steps:
+                if not ctx.quick or (len(by_rate.get(rate, [])) < 2):
+                    by_rate.setdefault(rate, []).append(step)
+            for rate, dts in by_rate.items():
+                cal = {"rate_f": rate}
+                try:
+                    ekf = eh.compile_ekf(d, process, {}, cal, rng, cse=cse)
+                except Exception as e:
+                    ctx.fail(f"compile-ekf-raises:{fk.exc_kind(e)}", f"compile_ekf refuses a valid definition: {e!r}"[:300], {"def": d.describe()})
+                    continue
+                for step in dts:
+                    pt = {"dt": step, "cal": cal, "state": {"pos_f": Fr(3, 4), "vel_f": Fr(-5, 8) if mi else Fr(3, 2)}, "control": {"acc_f": Fr(5, 4)}}
+                    _fixed_prediction(ctx, d, ekf, process, pt, eh.spd(rng, 2), "fast-clock-dt", {"cse": cse})
+
+
+def even_power_roots_at_negative_points(ctx):
+    """roots of even powers - the smooth |t| of a quadratic drag t*sqrt(t^2), (t^2)^(3/2), sqrt(a^2*b^2) - of states and of controls,
+    at EVERY sign combination of the symbols involved, with and without CSE: sqrt(t^2) is |t|, and rewriting it as t is wrong for t < 0
+    (state, process Jacobian and control Jacobian). Fixed inputs, private generator; exact oracle (the roots are rational here)."""
+    import itertools
+    import random
+    from fractions import Fraction as Fr
+    rng = random.Random(40418)
+    p, v, u, k = (sympy.Symbol(n) for n in ("pos_r", "vel_r", "thrust_r", "drag_r"))
+    dt = sympy.Symbol("dt")
+    sq = sympy.sqrt
+    models = [
+        ("quadratic-drag", {p: p + v * dt, v: v + (u - k * v * sq(v ** 2)) * dt}),
+        ("cubed-speed", {p: p + sq(p ** 2 * v ** 2) * dt, v: v - k * (v ** 2) ** sympy.Rational(3, 2) * dt + u * dt}),
+        ("control-magnitude", {p: p + v * dt + u * sq(u ** 2) * dt * dt / 2, v: v + k * u * sq(u ** 2) * dt - v * sq(p ** 2) * dt}),
+    ]
+    mags = {"pos_r": Fr(5, 4), "vel_r": Fr(3, 2), "thrust_r": Fr(7, 8)}
+    for label, sm in models:
+        d = gen.Definition(dt, [p, v], [u], [k], dict(sm), {})
+        process = {"thrust_r": Fr(5, 8)}
+        cal = {"drag_r": Fr(3, 8)}
+        for cse in (True, False):
+            try:
+                ekf = eh.compile_ekf(d, process, {}, cal, rng, cse=cse)
+            except Exception as e:
+                ctx.fail(f"compile-ekf-raises:{fk.exc_kind(e)}", f"compile_ekf refuses a valid definition: {e!r}"[:300], {"def": d.describe()})
+                continue
+            for signs in itertools.product((1, -1), repeat=3):
+                pt = {"dt": Fr(1, 4), "cal": cal, "state": {"pos_r": signs[0] * mags["pos_r"], "vel_r": signs[1] * mags["vel_r"]},
+                      "control": {"thrust_r": signs[2] * mags["thrust_r"]}}
+                if signs != (1, 1, 1):
+                    ctx.count("stream=even-power-roots:negative-base")
+                _fixed_prediction(ctx, d, ekf, process, pt, eh.spd(rng, 2), "even-power-roots", {"cse": cse, "model": label})
+
+
 def run(ctx):
     audit = core.lean_audit("C04")
     drv = core.Driver()
@@ -230,8 +350,12 @@ def run(ctx):
             case = {"def": d.describe(), "cse": cse, "noise": {k: str(v) for k, v in process.items()},
                     "point": eh.point_json(pt), "P": eh.mat_json(P)}
             sub = eh.subs_map(d, pt)
-            G = eh.oracle_jac(um, Ls, Ls, sub)
-            V = eh.oracle_jac(um, Ls, Lc, sub)
+            try:
+                G = eh.oracle_jac(um, Ls, Ls, sub)
+                V = eh.oracle_jac(um, Ls, Lc, sub)
+            except ValueError:
+                # the exact derivative is 0/0 at this point (e.g. acos(cos(dt*s)) at dt = 0 has a kink): G is not defined, nothing to demand
+                ctx.count("oracle_undefined_point"); continue
             M = [[process[a] if a == b else 0 for b in Lc] for a in Lc]
             asym = any(G[a][b] != G[b][a] for a in range(len(Ls)) for b in range(len(Ls)))
             ctx.case(case, nontrivial=bool(Lc) or asym)
@@ -280,6 +404,9 @@ def run(ctx):
         sc = max([abs(float(v)) for v in ms.values()] + [1.0])
         if set(ms) != set(gx) or not all(core.close(gx[n], ms[n], scale=sc) for n in ms) or not eh.mat_close(gP, mP):
             ctx.broke("correspondence:predict (Lean model vs process_model)", {"model": a["ok"], "impl_state": gx, "impl_cov": gP.tolist()}, info)
+    # fixed streams last (they draw nothing from ctx.rng; the tolerance in force is the 1e-9 of non-transcendental definitions)
+    fast_clock_time_steps(ctx)
+    even_power_roots_at_negative_points(ctx)
     return core.finish(ctx, audit, NOTE, RULE, PARTIAL)
 
 
